@@ -165,6 +165,8 @@ def _fidelity(ctx, cfg):
     if flav == "pure":
         t = _sym_vec(D, "t")
         tc = U.cdec(t._arr)
+        ov0 = sum((alg.conj(tc[k]) * m.psi[k] for k in range(D)), ZERO) * alg.inv(alg.sqrt(m.Z))
+        alg.certify_sos([alg.re(ov0), alg.im(ov0)], "(|<t|psi>|^2 / Z)")
         with m.stubs():
             f = ts.fidelity(m.state, t, space)
             f2 = ts.fidelity(m.state, t)               # space defaulted
